@@ -209,6 +209,58 @@ def value_params(f):
     return [i for i in range(1, f.argc + 1) if f.locals[i].endswith("::Value")]
 
 
+def check_merge_callback(chk, prog):
+    R = chk.rule("R-MERGE-CALLBACK", "the callback built by MergeFn::to_callback fills the output row only when something changed and returns exactly that flag; the output row is the "
+                 "incoming row's key (extend_from_slice(new)) with ret_val = the resolved merge result and timestamp = the incoming row's timestamp")
+    root = prog.need("egglog_bridge::MergeFn::to_callback")
+    cb = None
+    for g in prog.children(root):
+        if g.calls_to("egglog_bridge::SchemaMath::write_table_row") and g.argc >= 5:
+            cb = g
+    if cb is None:
+        chk.missing(R, "merge callback closure calling write_table_row")
+        return
+    # closure params: _1 env, _2 state, _3 cur, _4 new, _5 out
+    cur_p, new_p, out_p = cb.argc - 2, cb.argc - 1, cb.argc
+    w = cb.calls_to("egglog_bridge::SchemaMath::write_table_row")[0]
+    flag = None
+    for g in guards(cb, w.bb):
+        if g.get("truth") is True and g["desc"][0] == "val":
+            from ..util import trace_back
+            flag = trace_back(cb, g["desc"][1])
+    ret = cb.origins([0, []])
+    ret_ok = flag is not None and cb.origins([flag, []]) == ret
+    chk.judge(flag is not None and ret_ok, R, "egglog_bridge::MergeFn::to_callback:changed-flag",
+              "write_table_row runs only under `changed`, and `changed` is what the callback returns",
+              "the callback writes the output row unconditionally or returns something other than the flag guarding the write (the table would store an empty or stale row)", w.loc)
+    ext = [c for c in cb.calls if c.p.endswith("::extend_from_slice")]
+    ok_ext = False
+    for c in ext:
+        ra, sa = cb.origins(c.args[0]), cb.origins(c.args[1])
+        if any(a[0] == "param" and a[1] == out_p for a in ra) and any(a[0] == "param" and a[1] == new_p for a in sa) and not any(a[0] == "param" and a[1] == cur_p for a in sa):
+            ok_ext = cb.dominates(c.bb, w.bb)
+    chk.judge(ok_ext, R, "egglog_bridge::MergeFn::to_callback:row-from-new", "output row starts as a copy of the incoming row",
+              "the output row is not built from the incoming row (out.extend_from_slice(new))", w.loc)
+    ok_vals = False
+    for i, j, s in cb.assigns():
+        if s[2][0] == "agg" and s[2][2] == "egglog_bridge::RowVals":
+            adt = prog.adts["egglog_bridge::RowVals"]
+            names = [fd["name"] for fd in adt["variants"][0]["fields"]]
+            ts = cb.origins(s[2][4][names.index("timestamp")])
+            rv = cb.origins(s[2][4][names.index("ret_val")])
+            ts_ok = bool(ts) and all(a[0] == "param" and a[1] == new_p for a in ts)
+            rv_ok = False
+            for a in rv:
+                if a[0] == "agg" and a[3] == "Some":
+                    st = cb.stmt(a[4], a[5])
+                    va = cb.origins(st[2][4][0])
+                    if va and all(x[0] == "call" and x[1] == "egglog_bridge::ResolvedMergeFn::run" for x in va):
+                        rv_ok = True
+            ok_vals = ts_ok and rv_ok
+    chk.judge(ok_vals, R, "egglog_bridge::MergeFn::to_callback:row-values", "ret_val = resolved.run(..), timestamp = new row's timestamp",
+              "the merged row does not carry the merge result / the incoming row's timestamp", w.loc)
+
+
 def check_nomerge(chk, prog):
     R = chk.rule("R-NOMERGE-PANICS", "in ResolvedMergeFn::run the AssertEq arm calls ExecutionState::call_external_func(panic) "
                  "on the branch where cur != new")
@@ -310,5 +362,6 @@ def run(chk, prog, tier):
     check_merge_stored(chk, prog)
     check_insert_after_probe(chk, prog)
     check_merge_args(chk, prog)
+    check_merge_callback(chk, prog)
     check_nomerge(chk, prog)
     check_old_new(chk, prog)
